@@ -235,6 +235,28 @@ pub fn execute(ctx: &mut Ctx, s: &Scenario) -> Outcome {
         }
     });
     ctx.counters.add("fault.dropped_term_facts", s.drop_terms.len() as u64);
+    let beyond = s.ops.iter().filter(|op| match op {
+        Op::AddParent { parent, child } => *parent >= 10_000_000 || *child >= 10_000_000,
+        Op::Annotate { term, .. } => *term >= 10_000_000,
+        _ => false,
+    }).count();
+    ctx.counters.add("probe.calls_on_ids_beyond_the_id_table", beyond as u64);
+    // a rejected annotate call that is the first mention of its record
+    let mut seen: BTreeSet<(Kind, u32)> = BTreeSet::new();
+    for op in &s.ops {
+        match op {
+            Op::AddRec { kind, id, .. } => {
+                seen.insert((*kind, *id));
+            }
+            Op::Annotate { kind, id, term, .. } => {
+                if !present.contains(term) && !seen.contains(&(*kind, *id)) {
+                    ctx.counters.add("probe.rejected_call_is_first_mention_of_record", 1);
+                }
+                seen.insert((*kind, *id));
+            }
+            _ => {}
+        }
+    }
     ctx.counters.add("fault.rejected_calls", rejected);
     for (c, d) in wrong {
         out.violate(P, c, format!("{what}: {d}"));
